@@ -31,10 +31,10 @@ def Hcast (cfg : Cfg) (goals : List Goal) (data : List Row) : Bool :=
         !EV.lt a b || EV.lt (cfg.cast a) (cfg.cast b)
 
 /-- **H-sweep**: in every group that takes the 2-D path, the second varying column stays below the
-initial value of `best_c1`. -/
+initial value of `best_c1` (vacuous for the repaired sweep `cfg.sweepFirst`). -/
 def HsweepG (cfg : Cfg) (d : Nat) (G : List Item) : Bool :=
   match groupPath d G with
-  | .sweep vs => G.all fun x => EV.lt (cell (pick vs x.2) 1) cfg.sweepInit
+  | .sweep vs => cfg.sweepFirst || G.all fun x => EV.lt (cell (pick vs x.2) 1) cfg.sweepInit
   | _ => true
 
 /-- **H-key**: in every group that takes the general path, the float sort key is strictly monotone on
